@@ -1859,6 +1859,132 @@ theorem C14_selector_zero :
       rowsFor, maskRows, exProblem, Legacy.asIs, timesAccepted, adjacentOk, List.lookup, sortByTime,
       insertByTime, List.filterMap_cons, List.filter_cons, h10, h01]
 
+/-! ## call histories: what stays on the controller's own mechanistic model -/
+
+theorem createLLs_state [ScalarFns α] (lg : Legacy) (P : Problem α) :
+    ∀ (il : List String) (shared : Option (List (Event α))) (lls : List (Indiv α))
+      (shEnd : Option (List (Event α))), createLLs lg P il shared = .ok (lls, shEnd) →
+      shEnd = (il.getLast?.map (regOf P shared)).getD shared := by
+  intro il
+  induction il with
+  | nil =>
+    intro shared lls shEnd h
+    simp only [createLLs, Except.ok.injEq, Prod.mk.injEq] at h
+    simp [h.2]
+  | cons i is ih =>
+    intro shared lls shEnd h
+    unfold createLLs at h
+    rcases hs : setRegimen P i shared with x | sh
+    · rw [hs] at h; cases h
+    · rw [hs] at h
+      simp only at h
+      have hsh := setRegimen_spec P i shared sh hs
+      rcases hc : createLL lg P i sh with x | ind
+      · rw [hc] at h; cases h
+      · rw [hc] at h
+        simp only at h
+        rcases hr : createLLs lg P is sh with x | ⟨rest, e2⟩
+        · rw [hr] at h; cases h
+        · rw [hr] at h
+          simp only [Except.ok.injEq, Prod.mk.injEq] at h
+          have h2 := ih sh rest e2 hr
+          rw [← h.2, h2, hsh]
+          cases is with
+          | nil => simp
+          | cons j js =>
+            simp only [List.getLast?_cons_cons]
+            rcases hl : (j :: js).getLast? with _ | l
+            · simp at hl
+            · simp [regOf_idem]
+
+/-- **C14 (what a call leaves behind — the code as it is).** After `get_log_posterior` the controller's
+    own mechanistic model carries the regimen of the LAST individual that was built (when the frame has
+    dose information), otherwise what it carried before. A later call on a frame WITHOUT dose information
+    builds every likelihood with that left-over protocol (`C14_regimens_own`), so its result depends on the
+    call history: `C14_stale_regimen_counterexample`. -/
+theorem C14_model_state_after [ScalarFns α] (lg : Legacy) (P : Problem α) (sel : Option RawId)
+    (shared : Option (List (Event α))) (post : Posterior α) (shEnd : Option (List (Event α)))
+    (h : getLogPosterior lg P sel shared = .ok (post, shEnd)) :
+    ∃ il, selectIds lg P sel = .ok il ∧ shEnd = (il.getLast?.map (regOf P shared)).getD shared ∧
+      (P.regimens = none → shEnd = shared) := by
+  unfold getLogPosterior at h
+  rcases hs : selectIds lg P sel with x | il
+  · rw [hs] at h; cases h
+  · rw [hs] at h
+    simp only at h
+    rcases hc : createLLs lg P il shared with x | ⟨lls, e2⟩
+    · rw [hc] at h; cases h
+    · rw [hc] at h
+      simp only at h
+      have hst := createLLs_state lg P il shared lls e2 hc
+      have he : shEnd = e2 := by
+        by_cases hpop : P.hasPop = true
+        · simp only [hpop, if_true] at h
+          split at h
+          · cases h
+          · split at h
+            · simp only [Except.ok.injEq, Prod.mk.injEq] at h; exact h.2.symm
+            · rcases hx : extractCovariates P.data P.covMap P.ids P.covNames with x | M
+              · rw [hx] at h; cases h
+              · rw [hx] at h; simp only [Except.ok.injEq, Prod.mk.injEq] at h; exact h.2.symm
+        · simp only [hpop, Bool.false_eq_true, if_false] at h
+          rcases lls with _ | ⟨l, _ | ⟨l2, ls⟩⟩
+          · cases h
+          · simp only [Except.ok.injEq, Prod.mk.injEq] at h; exact h.2.symm
+          · cases h
+      refine ⟨il, rfl, he ▸ hst, fun hn => ?_⟩
+      rw [he, hst]
+      rcases il.getLast? with _ | l
+      · rfl
+      · simp [regOf, hn]
+
+/-- **C14 (any call history — the repaired assembly).** If the regimen is set on a copy, a call leaves the
+    controller's model as it was, so in ANY sequence of `get_log_posterior` calls, with the data replaced
+    in between in any way, every call returns what it returns on a fresh controller: the posterior the
+    current dataset describes. -/
+theorem C14_history_independent [ScalarFns α] (lg : Legacy)
+    (calls : List (Problem α × Option RawId)) (shared : Option (List (Event α))) :
+    runSeq (getLogPosteriorPure lg) calls shared =
+      calls.map (fun c => match getLogPosteriorPure lg c.1 c.2 shared with
+        | .ok (post, _) => .ok post
+        | .error x => .error x) := by
+  induction calls with
+  | nil => rfl
+  | cons c cs ih =>
+    obtain ⟨P, sel⟩ := c
+    unfold runSeq
+    rcases hp : getLogPosteriorPure lg P sel shared with x | ⟨post, sh'⟩
+    · simp only [List.map_cons, hp, ih]
+    · have : sh' = shared := by
+        unfold getLogPosteriorPure at hp
+        rcases hg : getLogPosterior lg P sel shared with x | ⟨p2, s2⟩
+        · rw [hg] at hp; cases hp
+        · rw [hg] at hp; simp only [Except.ok.injEq, Prod.mk.injEq] at hp; exact hp.2.symm
+      subst this
+      simp only [List.map_cons, hp, ih]
+
+/-- a frame with one individual, one measurement and one bolus dose of 4 at `t = 0` -/
+noncomputable def exDosed : Problem ℝ :=
+  { exProblem [("1", 1, 1)] ["1"] false with regimens := some [("1", [⟨400, 0, 1 / 100⟩])] }
+
+/-- **Finding `C14-stale-regimen` (the code as it is).** `get_log_posterior` on a dosed frame leaves the
+    individual's regimen on the controller's own model; after the data has been replaced by a frame
+    without dose information the likelihood is still built with it, whereas a fresh controller (and the
+    repaired assembly, after the same history) builds it without doses. -/
+theorem C14_stale_regimen_counterexample :
+    getLogPosterior Legacy.asIs exDosed none none
+      = .ok (.single ⟨"1", [⟨[1], [1]⟩], some [⟨400, 0, 1 / 100⟩]⟩, some [⟨400, 0, 1 / 100⟩]) ∧
+    getLogPosterior Legacy.asIs (exProblem [("1", 1, 1)] ["1"] false) none (some [⟨400, 0, 1 / 100⟩])
+      = .ok (.single ⟨"1", [⟨[1], [1]⟩], some [⟨400, 0, 1 / 100⟩]⟩, some [⟨400, 0, 1 / 100⟩]) ∧
+    getLogPosterior Legacy.asIs (exProblem [("1", 1, 1)] ["1"] false) none none
+      = .ok (.single ⟨"1", [⟨[1], [1]⟩], none⟩, none) ∧
+    runSeq (getLogPosteriorPure Legacy.asIs) [(exDosed, none), (exProblem [("1", 1, 1)] ["1"] false, none)] none
+      = [.ok (.single ⟨"1", [⟨[1], [1]⟩], some [⟨400, 0, 1 / 100⟩]⟩), .ok (.single ⟨"1", [⟨[1], [1]⟩], none⟩)] := by
+  refine ⟨?_, ?_, ?_, ?_⟩ <;>
+    norm_num [runSeq, getLogPosteriorPure, getLogPosterior, selectIds, createLLs, setRegimen, createLL, outputsData,
+      outData, rowsFor, maskRows, exProblem, exDosed, Legacy.asIs, timesAccepted, adjacentOk, List.lookup, sortByTime,
+      insertByTime, List.filterMap_cons, List.filter_cons]
+
 /-! ## non-vacuity -/
 
 example : unique ["b", "a", "b", "c", "a"] = ["b", "a", "c"] := by decide
